@@ -7,10 +7,12 @@ import (
 	"os"
 	"path/filepath"
 	"reflect"
+	"runtime"
 	"sort"
 	"strings"
 	"sync"
 	"time"
+	"verifharness/internal/reg"
 
 	nas "github.com/free5gc/nas"
 	"github.com/free5gc/nas/logger"
@@ -92,6 +94,25 @@ func (sh *c19Shared) sharedWires() [][]byte {
 		}
 	})
 	return sh.wires
+}
+
+var (
+	c19BufOnce  sync.Once
+	c19BufNames []string
+)
+
+// c19BufferTypes lists the element types that have SetLen and a Buffer (sorted).
+func c19BufferTypes() []string {
+	c19BufOnce.Do(func() {
+		for n, ctor := range reg.IETypes {
+			pv := reflect.ValueOf(ctor())
+			if f := pv.Elem().FieldByName("Buffer"); f.IsValid() && f.Kind() == reflect.Slice && pv.MethodByName("SetLen").IsValid() {
+				c19BufNames = append(c19BufNames, n)
+			}
+		}
+		sort.Strings(c19BufNames)
+	})
+	return c19BufNames
 }
 
 func h64(b []byte) uint64 { return core.HashBytes(0, b) }
@@ -281,7 +302,29 @@ func c19Run(sh *c19Shared, it c19Item) (res uint64) {
 		e := nasType.NewEAPMessage(0x78)
 		e.SetLen(uint16(r.Range(4, 60)))
 		e.SetEAPMessage(r.Bytes(int(e.GetLen())))
-		return h64(g.Octet[:]) ^ uint64(g.GetAMFSetID())<<3 ^ h64(e.GetEAPMessage())
+		acc := h64(g.Octet[:]) ^ uint64(g.GetAMFSetID())<<3 ^ h64(e.GetEAPMessage())
+		// three element types with a Buffer, picked from all of them: SetLen, fill, read back
+		names := c19BufferTypes()
+		for j := 0; j < 3 && len(names) > 0; j++ {
+			obj := reg.IETypes[names[r.Intn(len(names))]]()
+			pv := reflect.ValueOf(obj)
+			m := pv.MethodByName("SetLen")
+			n := r.Range(1, 40)
+			switch f := m.Interface().(type) {
+			case func(uint8):
+				f(uint8(n))
+			case func(uint16):
+				f(uint16(n))
+			default:
+				continue
+			}
+			buf := pv.Elem().FieldByName("Buffer").Bytes()
+			pat := r.Bytes(len(buf))
+			copy(buf, pat)
+			runtime.Gosched()
+			acc ^= h64(pv.Elem().FieldByName("Buffer").Bytes()) ^ h64(pat)<<1 ^ uint64(len(buf))<<7
+		}
+		return acc
 	case "ident":
 		mcc, mnc := digits(r, 3), digits(r, 2+r.Intn(2))
 		amf, tmsi := r.Uint32()&0xffffff, r.Uint32()
